@@ -229,7 +229,11 @@ def tla_num(c):
     if t == "int":
         return {"k": "int", "i": tla_int(c["v"]), "big": bool(c.get("big", False))}
     if t == "rat":
-        return {"k": "rat", "n": tla_int(c["n"]), "d": nat_limbs(int(c["d"]))}
+        # the denominator of the encoding is a natural number; an observed rational whose denominator
+        # is not positive is not a fraction in canonical form: it is passed on with the empty (zero)
+        # denominator, which NumTower!RatOk - evaluated on every observed rational - rejects
+        d = int(c["d"])
+        return {"k": "rat", "n": tla_int(c["n"]), "d": nat_limbs(d) if d > 0 else []}
     if t == "float":
         return {"k": "float", "f": tla_float(c["bits"])}
     if t == "complex":
